@@ -5,6 +5,7 @@
    Model assumptions A1-A3 (little-endian, 24-byte input_event with fields at
    16/18/20, whole writes and min(24, available) reads) are stated at the top of
    Wire.v and CHECKED on the platform by the `wire` harness engine. *)
+From TM Require EndToEnd Base Json RustOps Mapper Monitors MapperInv Convert LoaderCheck.
 From TM Require Import Wire WireSpec WireLemmas SpecKernelKeys.
 From TMGen Require Import KeyTable.
 From Coq Require Import String.
@@ -100,6 +101,23 @@ Print Assumptions C18_codes_are_kernel_codes.
 
 (* the guards are satisfiable on a non-trivial batch, and the bytes are what
    one expects: A down, KBD_LCD_MENU5 (700 = 0x02bc) up *)
+
+(* The guard `known_batch` of the theorems above is met by everything the
+   tool can ever write from the mapper: for EVERY layout file the loader accepts,
+   EVERY key classification and EVERY history (any length; key events of known
+   keys, well-formed or not, and release-all calls), each batch of events the
+   mapper emits consists of keys of the key table, fits the record format and is
+   read back by the tool's own reader as exactly that batch.  (Loader C13-C15,
+   mapper C02/C19 and codec C18 composed: TM.EndToEnd.) *)
+Theorem C18_every_mapper_output_is_encodable :
+  forall (is_action : Base.key -> bool) (j : Json.json) (L : Mapper.layout) (h : list Monitors.input),
+    Convert.load j = RustOps.Ok L ->
+    (forall k, In k (EndToEnd.input_keys h) -> LoaderCheck.known_key k = true) ->
+    forall batch, In batch (fst (MapperInv.mrun is_action L Mapper.init h)) ->
+      known_batch batch = true /\ fits_u16 batch = true /\ decode_stream (encode_batch batch) = batch.
+Proof. exact EndToEnd.loaded_layout_outputs_are_encodable. Qed.
+Print Assumptions C18_every_mapper_output_is_encodable.
+
 Example C18_example_batch :
   known_batch [Pressed 30%N; Released 700%N] = true
   /\ encode_batch [Pressed 30%N; Released 700%N] =
